@@ -387,7 +387,7 @@ fn main() {
             let masks: Vec<u32> = arg_val(&args, "--masks")
                 .map(|s| s.split(',').filter_map(|m| m.parse().ok()).collect())
                 .unwrap_or_else(|| vec![0, 0xfff]);
-            procsuite::suite_overmount(&mut ctx, &masks)
+            procsuite::suite_overmount(&mut ctx, &masks, args.iter().any(|a| a == "--faults"))
         }
         "proc-matrix" => {
             let label = arg_val(&args, "--label").unwrap_or_else(|| "default".into());
